@@ -238,7 +238,16 @@ def rand_circuit(
             if n in loaded or n in outs or t not in ("input", "0", "1", "x"):
                 continue
             tgt = [g for g in multi if [n, g] not in cd["edges"]]
-            if tgt and rng.random() < 0.7:
+            if not tgt and p_input_output == 0.0 and t == "input" and gates:
+                # callers that must not get an input marked as output: widen a 1-input gate
+                g1 = rng.choice(gates)
+                for x in cd["nodes"]:
+                    if x[0] == g1 and x[1] in GATES1:
+                        x[1] = "and" if x[1] == "buf" else "nand"
+                        multi.append(g1)
+                        tps[g1] = x[1]
+                tgt = [g for g in multi if [n, g] not in cd["edges"]]
+            if tgt and (rng.random() < 0.7 or (p_input_output == 0.0 and t == "input")):
                 cd["edges"].append([n, rng.choice(tgt)])
             else:
                 outs.add(n)
